@@ -494,10 +494,10 @@ Definition finalize (k : cfg) (pl : plan) (s : state) (v : claim) : state * (lis
   let listed := match c_r v with RTrue => match_count r | _ => 0%nat end in
   match listed, r_nd r with
   | S _, Some n =>
-      let r := if r_dp r then set_dp (add_eff r EDupDel) false else r in
       let r := if n_del n then r
                else if n_synced n then set_nd (add_eff r ENodeDel) (Some (nd_del n))
                else set_nd (add_eff r ENodeDel) None in
+      let r := if r_dp r then set_dp (add_eff r EDupDel) false else r in
       (state_of r s, (r_effs r, QNone))
   | _, _ =>
     match c_pid v with
